@@ -386,7 +386,7 @@ def main(argv):
         "property_id": pid,
         "tier": tier,
         "seed": seed,
-        "level": "proof",
+        "level": "proof" if obligations > 0 else "exploration",
         "coverage": {
             "obligations": obligations,
             "discharged": discharged,
